@@ -434,6 +434,109 @@ pub fn corpus_files() -> Vec<(String, Vec<u8>)> {
 pub const ALL_OPTS: [&str; 4] = ["ff", "tf", "ft", "tt"];
 
 /// Streams shared by the parser properties. `opts`: option records to run under.
+/// (j) character-class aliasing: every character of documents covering every token type is
+/// replaced by characters that a truncating cast (`as u8`, `as u16`), a Unicode-aware class test
+/// (`is_whitespace`, `is_numeric`, `is_alphanumeric`, `to_digit` on non-ASCII, `is_control`), a
+/// table indexed by the character or a lookalike would confuse with it; (l) the same right after
+/// token prefixes of EVERY length 0..=40 (a fast path that starts once a buffer has spilled, a
+/// chunked scan, … is decided at one such length)
+pub fn stream_aliasing(out: &mut Out, opts: &[&str]) {
+    let mut l = |s: String, out: &mut Out| crate::exec_line(&s, out);
+    {
+        let templates = [
+            "{\"a\\u00e9\\ud83d\\ude00\\n\":[-12.50e+3,true,false,null,\"x\"], \"b\" : {}}",
+            " [0.1E-7 ,\t\"\\uABcd\\\\\"\r\n, -0 ] ",
+            "\"\\u0041\\udbff\\udfff\"",
+        ];
+        let lookalike: &[char] = &['\u{a0}', '\u{2003}', '\u{3000}', '\u{feff}', '\u{b}', '\u{c}', '\u{85}', '\u{2028}', '\u{660}', '\u{ff11}', '\u{ff45}', '\u{435}', '\u{201c}', '\u{ff02}', '\u{ff0c}', '\u{ff3b}', '\u{ff5b}', '\u{2212}', '\u{7f}', '\u{9f}'];
+        let mut n = 0u64;
+        for t in templates {
+            let chars: Vec<char> = t.chars().collect();
+            for k in 0..chars.len() {
+                let a = chars[k] as u32;
+                let mut alts: Vec<char> = Vec::new();
+                for d in [0x100u32, 0x200, 0x300, 0x2000, 0xff00, 0x10000, 0x20000, 0x100000] {
+                    if let Some(c) = char::from_u32(a + d) { alts.push(c); }
+                }
+                alts.extend_from_slice(lookalike);
+                for (j, c) in alts.iter().enumerate() {
+                    let mut m = chars.clone();
+                    m[k] = *c;
+                    let o = opts[(k + j) % opts.len()];
+                    l(req_str(&m.iter().collect::<String>(), o), out);
+                    n += 1;
+                    if j % 3 == 0 {
+                        let mut m = chars.clone();
+                        m.insert(k, *c);
+                        l(req_str(&m.iter().collect::<String>(), o), out);
+                        n += 1;
+                    }
+                }
+            }
+        }
+        out.count_n("stream_char_aliasing", n);
+        out.exhaustive.push("every character position of 3 documents covering every token type x (the character + 0x100/0x200/0x300/0x2000/0xff00/0x10000/0x20000/0x100000, and 20 Unicode lookalikes of whitespace, digits, letters, quotes, separators, controls): replaced, and every third also inserted".into());
+    }
+    {
+        let mut n = 0u64;
+        for len in 0..=40usize {
+            let heads: Vec<(String, &[char], &str)> = vec![
+                (format!("[{}", "1".repeat(len.max(1))), &['0', '.', 'e', ',', ']', ' '][..], "0]"),
+                (format!("[-{}.{}", "1".repeat(len / 2 + 1), "5".repeat((len + 1) / 2 + 1)), &['0', 'e', 'E', ']'][..], "1]"),
+                (format!("[1e{}", "2".repeat(len.max(1))), &['0', ',', ']'][..], "1]"),
+                (format!("[1.5e-{}", "2".repeat(len.max(1))), &['7', ' '][..], "1]"),
+                (format!("[\"{}", "a".repeat(len)), &['"', '\\', 'a', '\n'][..], "\"]"),
+                (format!("[\"{}\\u", "a".repeat(len)), &['0', 'a', 'F'][..], "0041\"]"),
+                (format!("[\"{}\\u0", "a".repeat(len)), &['0', 'c'][..], "041\"]"),
+                (format!("[\"{}\\u00", "é".repeat(len)), &['4', 'E'][..], "41\"]"),
+                (format!("[\"{}\\u004", "a".repeat(len)), &['1', 'b'][..], "1\"]"),
+                (format!("[\"{}\\ud83d\\ude0", "a".repeat(len)), &['0'][..], "0\"]"),
+                (format!("{{\"{}", "k".repeat(len)), &['"', ':'][..], "\":1}"),
+                (format!("{{\"{}\"", "k".repeat(len)), &[':', ' '][..], ":1}"),
+                (format!("[{}tru", " ".repeat(len)), &['e'][..], "e]"),
+            ];
+            for (hi, (head, nexts, tail)) in heads.iter().enumerate() {
+                for (ai, a) in nexts.iter().enumerate() {
+                    for (di, d) in [0x100u32, 0x2c00, 0xff00, 0x10000, 0x100000].iter().enumerate() {
+                        if len > 24 && (len + hi + ai + di) % 2 == 1 { continue; }
+                        if let Some(c) = char::from_u32(*a as u32 + d) {
+                            let o = opts[(len + hi + ai + di) % opts.len()];
+                            l(req_str(&format!("{}{}{}", head, c, tail), o), out);
+                            n += 1;
+                            if di == 0 { l(req_bytes(format!("{}{}", head, c).as_bytes(), o), out); n += 1; }
+                        }
+                    }
+                }
+            }
+        }
+        // two adjacent faults through the byte entry point: a character that is wrong (or right) at
+        // its position immediately followed by ill-formed UTF-8 — which of the two is reported must
+        // not depend on read-ahead
+        let mut m = 0u64;
+        for t in ["{\"a\\u00e9\\ud83d\\ude00\\n\":[-12.50e+3,true,false,null,\"x\"], \"b\" : {}}", " [0.1E-7 ,\t\"\\uABcd\\\\\"\r\n, -0 ] "] {
+            let b = t.as_bytes();
+            for k in 0..=b.len() {
+                for (wi, wrong) in [&b"G"[..], b"\"", b",", b"0", b"\\", b"u", b""].iter().enumerate() {
+                    for (bi, bad) in [&[0xffu8][..], &[0xc3], &[0xed, 0xa0, 0x80], &[0xf4, 0x90, 0x80, 0x80], &[0x80]].iter().enumerate() {
+                        if (k + wi + bi) % 2 == 1 && wi > 1 { continue; }
+                        let mut v = b[..k].to_vec();
+                        v.extend_from_slice(wrong);
+                        v.extend_from_slice(bad);
+                        let o = opts[(k + wi + bi) % opts.len()];
+                        l(req_bytes(&v, o), out);
+                        if bi == 0 { v.extend_from_slice(&b[k..]); l(req_bytes(&v, o), out); m += 1; }
+                        m += 1;
+                    }
+                }
+            }
+        }
+        out.count_n("stream_fault_then_illformed_utf8", m);
+        out.exhaustive.push("every byte position of 2 documents covering every token type: 7 wrong-or-right characters x 5 ill-formed UTF-8 sequences inserted there (truncated after, and continued)".into());
+        out.count_n("stream_long_prefix_aliasing", n);
+        out.exhaustive.push("13 token-prefix shapes (integer, fraction, exponent, string body, each slot of a \\uXXXX escape and of a surrogate pair, key, colon, literal) of every length 0..=40, followed by each valid next character + 0x100/0x2c00/0xff00/0x10000/0x100000".into());
+    }
+}
+
 pub fn gen_streams(out: &mut Out, thorough: bool, opts: &[&str], focus: &str) {
     let mut l = |s: String, out: &mut Out| crate::exec_line(&s, out);
     // (a) bounded-exhaustive over the character alphabet
@@ -587,45 +690,7 @@ pub fn gen_streams(out: &mut Out, thorough: bool, opts: &[&str], focus: &str) {
             l(req_bytes(doc.as_bytes(), o), out);
         }
     }
-    // (j) character-class aliasing: every character of documents covering every token type is
-    // replaced by characters that a truncating cast (`as u8`, `as u16`), a Unicode-aware class test
-    // (`is_whitespace`, `is_numeric`, `is_alphanumeric`, `to_digit` on non-ASCII, `is_control`) or a
-    // lookalike would confuse with it
-    {
-        let templates = [
-            "{\"a\\u00e9\\ud83d\\ude00\\n\":[-12.50e+3,true,false,null,\"x\"], \"b\" : {}}",
-            " [0.1E-7 ,\t\"\\uABcd\\\\\"\r\n, -0 ] ",
-            "\"\\u0041\\udbff\\udfff\"",
-        ];
-        let lookalike: &[char] = &['\u{a0}', '\u{2003}', '\u{3000}', '\u{feff}', '\u{b}', '\u{c}', '\u{85}', '\u{2028}', '\u{660}', '\u{ff11}', '\u{ff45}', '\u{435}', '\u{201c}', '\u{ff02}', '\u{ff0c}', '\u{ff3b}', '\u{ff5b}', '\u{2212}', '\u{7f}', '\u{9f}'];
-        let mut n = 0u64;
-        for t in templates {
-            let chars: Vec<char> = t.chars().collect();
-            for k in 0..chars.len() {
-                let a = chars[k] as u32;
-                let mut alts: Vec<char> = Vec::new();
-                for d in [0x100u32, 0x200, 0x300, 0x2000, 0xff00, 0x10000, 0x20000, 0x100000] {
-                    if let Some(c) = char::from_u32(a + d) { alts.push(c); }
-                }
-                alts.extend_from_slice(lookalike);
-                for (j, c) in alts.iter().enumerate() {
-                    let mut m = chars.clone();
-                    m[k] = *c;
-                    let o = opts[(k + j) % opts.len()];
-                    l(req_str(&m.iter().collect::<String>(), o), out);
-                    n += 1;
-                    if j % 3 == 0 {
-                        let mut m = chars.clone();
-                        m.insert(k, *c);
-                        l(req_str(&m.iter().collect::<String>(), o), out);
-                        n += 1;
-                    }
-                }
-            }
-        }
-        out.count_n("stream_char_aliasing", n);
-        out.exhaustive.push("every character position of 3 documents covering every token type x (the character + 0x100/0x200/0x300/0x2000/0xff00/0x10000/0x20000/0x100000, and 20 Unicode lookalikes of whitespace, digits, letters, quotes, separators, controls): replaced, and every third also inserted".into());
-    }
+    stream_aliasing(out, opts);
     // (k) long tokens across internal size thresholds (inline/heap switches of SmallString/SmallVec,
     // stack buffers, chunked copies — whatever their size is): strings and keys with EVERY plain-run
     // length 0..N followed by a 1/2/3/4-byte character, an escape or a surrogate pair and then a
